@@ -1,7 +1,15 @@
+"""C18 - the diagnostic checkers accept every valid tree and detect every corruption."""
 from props import _generic as g
 
 
 def run(ctx):
     fns = g.run_pyvc(ctx, "C18")
+    # the C checker reads its children's vectors: only on activated nodes (accepts stored trees with ghosts)
+    ctx.cvc(["II"] if ctx.tier == "quick" else ["II", "OO", "fs"], ["T-USE"], functions=["BTree_check_inner"])
     ctx.standin("checkers_rt", families=tuple("OO,II".split(",")))
-    return "exploration", "bounded stand-in checkers_rt (no obligation of the deductive engines serves C18 yet)"
+    return "other", (
+        "Engine P: %d targets of BTrees.check / _base under contract (%s). Engine C, T-USE on BTree_check_inner / BTree_check: "
+        "every read of a child's len / firstbucket / next happens on an activated node, so _check() accepts stored trees whose "
+        "nodes are ghosts. Acceptance of valid trees and rejection of every single corruption of the catalogue (all positions of "
+        "2-4 level trees, incl. empty interior nodes and ancestor bounds; stored trees with every ghost pattern) are the bounded "
+        "stand-in checkers_rt." % (len(fns), ", ".join(fns)))
